@@ -589,7 +589,10 @@ func (k *vf17Inst) checkSize(s vf17Snap, phase string) {
 
 const (
 	vf17Tick       = defaultMaxBatchDelay
-	vf17DrainBound = defaultErrorDelay + 6*defaultMaxBatchDelay
+	// bounded progress: the code's own back-off plus six ticks, tripled so that a machine under
+	// heavy load (observed: load average 180 on 16 cores) cannot turn slowness into "stuck";
+	// a cache that drains leaves the loop at once, so only non-draining cases pay for it
+	vf17DrainBound = 3 * (defaultErrorDelay + 6*defaultMaxBatchDelay)
 )
 
 // drain waits (bounded) for the cache tree to become empty after writes and faults stopped
@@ -613,7 +616,7 @@ func (k *vf17Inst) drain(scenario string) (vf17Snap, bool) {
 	if drained {
 		s, ok = k.stable(3, 30*time.Millisecond, 3*vf17DrainBound)
 	} else {
-		s, ok = k.stable(4, vf17Tick/2, 3*vf17DrainBound)
+		s, ok = k.stable(8, vf17Tick, 3*vf17DrainBound)
 	}
 	if !drained {
 		// an object whose flush the main storage acknowledged after its latest put returned
@@ -692,8 +695,8 @@ func (k *vf17Inst) checkMain(s vf17Snap) {
 // probeFits: observable form of SIZE on an empty cache – an object of exactly the maximum
 // size fits and must be admitted.
 func (k *vf17Inst) probeFits(rng *rand.Rand, cnr cid.ID, owner user.ID, s vf17Snap) {
-	if len(s.files) != 0 {
-		return
+	if len(s.files) != 0 || len(s.flushObjs) != 0 || s.torn {
+		return // not empty, or a worker still holds addresses: the reported size may legitimately lag
 	}
 	o := vf17MakeObj(rng, cnr, owner, int(k.p.MaxSize))
 	if uint64(len(o.data)) != k.p.MaxSize {
@@ -710,6 +713,16 @@ func (k *vf17Inst) probeFits(rng *rand.Rand, cnr cid.ID, owner user.ID, s vf17Sn
 
 func (k *vf17Inst) finish(rng *rand.Rand, cnr cid.ID, owner user.ID, scenario string) {
 	s, ok := k.drain(scenario)
+	if ok && len(s.files) == 0 && len(s.flushObjs) != 0 {
+		// the tree is empty but a flush worker still holds addresses (it is between removing
+		// the last file and dropping its table entry / mark): let it finish, state based,
+		// with a generous watchdog whose firing only skips the admission probe
+		if vf17Await(func() bool { n := 0; k.c.flushObjs.Range(func(_, _ any) bool { n++; return false }); return n == 0 }, 60*vf17Tick) {
+			s, ok = k.stable(3, 30*time.Millisecond, 3*vf17DrainBound)
+		} else {
+			k.r.Count("cases_with_marks_left_on_an_empty_cache", 1)
+		}
+	}
 	if ok {
 		k.checkSize(s, "after drain")
 		k.checkMain(s)
